@@ -363,6 +363,68 @@ func checkC17(p *Prog, res *Result, tier string) {
 		} else if n == 0 {
 			res.und("C17-R2", construct, p.pos(g.Pos()), "no pop of the compaction-mark queue found")
 		}
+		// the revision handed back is that of a mark whose own age was tested: every record that can flow into the
+		// result is the very value whose time was handed to time.Since (or the fresh empty record) - not the next
+		// head, and not whatever pop() removed
+		{
+			c2 := funcName(g) + ": the timeout revision is that of a mark whose age was tested"
+			aged := map[ssa.Value]bool{}
+			for _, c := range callsIn(g) {
+				sc := c.Common().StaticCallee()
+				if sc == nil || sc.Pkg == nil || sc.Pkg.Pkg.Path() != "time" || sc.Name() != "Since" {
+					continue
+				}
+				if ld, ok := resolve(c.Common().Args[0]).(*ssa.UnOp); ok && ld.Op == token.MUL {
+					if fa, ok := ld.X.(*ssa.FieldAddr); ok {
+						aged[resolve(fa.X)] = true
+					}
+				}
+			}
+			badRec := ""
+			nRec := 0
+			for _, b := range g.Blocks {
+				ret, ok := b.Instrs[len(b.Instrs)-1].(*ssa.Return)
+				if !ok || len(ret.Results) != 1 {
+					continue
+				}
+				ld, ok := resolve(ret.Results[0]).(*ssa.UnOp)
+				if !ok || ld.Op != token.MUL {
+					continue
+				}
+				fa, ok := ld.X.(*ssa.FieldAddr)
+				if !ok {
+					continue
+				}
+				var walk func(v ssa.Value, d int, seen map[ssa.Value]bool)
+				walk = func(v ssa.Value, d int, seen map[ssa.Value]bool) {
+					v = resolve(v)
+					if seen[v] || d > 6 {
+						return
+					}
+					seen[v] = true
+					if ph, ok := v.(*ssa.Phi); ok && !aged[v] {
+						for _, e := range ph.Edges {
+							walk(e, d+1, seen)
+						}
+						return
+					}
+					nRec++
+					if _, fresh := v.(*ssa.Alloc); fresh || aged[v] {
+						return
+					}
+					badRec = p.pos(ret.Pos())
+				}
+				walk(fa.X, 0, map[ssa.Value]bool{})
+			}
+			switch {
+			case nRec == 0:
+				// the revision is not read from a record (constant, other shape): nothing to judge here
+			case badRec != "":
+				res.bad("C17-R2", c2, badRec, "the record whose revision is returned is not the one whose age was compared with the TTL (the next head of the queue, or whatever was popped): with compactions arriving in between, or simply one iteration too far, the timeout revision is that of a mark younger than the TTL and events younger than the TTL are removed")
+			default:
+				res.ok("C17-R2", c2, p.pos(g.Pos()), "the returned revision belongs to the record handed to time.Since (or to the empty record)")
+			}
+		}
 	}
 
 	// ---- R3 ----
@@ -571,7 +633,7 @@ func checkC17(p *Prog, res *Result, tier string) {
 	if !c17NoImports {
 		sub7 := p.subResult("C07", tier)
 		for _, o := range sub7.Obls {
-			if o.Rule == "C07-R4" && strings.Contains(o.Construct, "expiry site") {
+			if o.Rule == "C07-R4" {
 				res.add("C17-R6", o.Rule+" "+o.Construct, o.Status, o.Pos, o.Detail)
 			}
 		}
